@@ -731,8 +731,18 @@ impl<'d> Session<'d> {
                                 if !self.reported_problems.insert(format!("{kind} {what}")) {
                                     continue;
                                 }
+                                // a duplicate that arises because a definition carries the very
+                                // name typify generates for an inline child of another definition
+                                // (`Foo` with an inline object property `bar`, and a definition
+                                // `FooBar`) is its own finding
+                                let child_collision = matches!(kind.as_str(), "dup-item" | "dup-impl")
+                                    && what
+                                        .split(|c: char| !(c.is_ascii_alphanumeric() || c == '_'))
+                                        .filter(|t| !t.is_empty())
+                                        .any(|t| self.child_name_collides_with_definition(t));
                                 let (inv, key) = match kind.as_str() {
                                     "unresolved" => ("I5", format!("unresolved:{opkind}")),
+                                    k if child_collision => ("I4", format!("{k}:child-name-equals-definition:{opkind}")),
                                     k => ("I4", format!("{k}:{opkind}")),
                                 };
                                 if seen.insert(key.clone()) {
@@ -860,6 +870,25 @@ impl<'d> Session<'d> {
             Ok(Err(e)) => Err(format!("err:{}", err_variant(&e))),
             Err(e) => Err(format!("panic:{}", classify_panic(&panic_message(e)))),
         }
+    }
+
+    /// Is `name` both the type name of a definition and the name typify derives
+    /// for an inline (untitled) object/enum property of another definition?
+    fn child_name_collides_with_definition(&self, name: &str) -> bool {
+        let is_def = self.defs.keys().any(|k| crate::gen::pascal(k) == name);
+        if !is_def {
+            return false;
+        }
+        self.defs.iter().any(|(pn, ps)| {
+            ps.get("properties").and_then(|p| p.as_object()).map(|props| {
+                props.iter().any(|(prop, sch)| {
+                    let inline_named = sch.get("title").is_none()
+                        && sch.get("$ref").is_none()
+                        && ((sch.get("type") == Some(&json!("object")) && sch.get("properties").is_some()) || (sch.get("type") == Some(&json!("string")) && sch.get("enum").is_some()));
+                    inline_named && crate::gen::pascal(&format!("{}_{}", crate::gen::pascal(pn), prop)) == name
+                })
+            }).unwrap_or(false)
+        })
     }
 
     /// Value probes for every named type whose schema the model knows:
